@@ -367,8 +367,8 @@ def accessors(rep, prog):
         if tr not in ACC_TRAITS:
             continue
         st = imp["self_ty"]["t"]
-        if st.startswith("protected::PAGESIZE"):
-            continue
+        if st.split("<")[0].split("::")[-1].isupper():
+            continue      # a lazy_static's generated Deref (e.g. PAGESIZE), not a byte container
         if not (st.startswith(("types::", "protected::", "precalc::", "kx::")) or st in SLICE_LIKE or st.startswith("[u8;") or st.startswith("&[u8;")):
             continue
         methods = {it["name"]: prog.by_key.get(it["key"]) for it in imp["items"]}
